@@ -80,7 +80,9 @@ func writeConstraints(sb *strings.Builder, ind string, cs []kv) {
 	}
 }
 
-func writeChans(sb *strings.Builder, ind, key string, chs []chanSpec) {
+// writeChans: inRole = the list belongs to a workflow role (its fields are template fields); a task template's own
+// bind/connect entries are written as they are.
+func writeChans(sb *strings.Builder, ind, key string, chs []chanSpec, inRole bool) {
 	if len(chs) == 0 {
 		return
 	}
@@ -94,10 +96,20 @@ func writeChans(sb *strings.Builder, ind, key string, chs []chanSpec) {
 			fmt.Fprintf(sb, "%s    addressing: %s\n", ind, ch.Addressing)
 		}
 		if ch.Global != "" {
-			fmt.Fprintf(sb, "%s    global: %s\n", ind, yq(ch.Global))
+			g := ch.Global
+			if inRole && len(g)%2 == 1 && !strings.Contains(g, "{{") && !strings.ContainsAny(g, "'\"\\") {
+				// the same alias written as a template expression (a string literal): resolved when the role is processed
+				g = "{{ '" + g + "' }}"
+			}
+			fmt.Fprintf(sb, "%s    global: %s\n", ind, yq(g))
 		}
 		if ch.Target != "" {
-			fmt.Fprintf(sb, "%s    target: %s\n", ind, yq(ch.Target))
+			t := ch.Target
+			if inRole && len(t)%3 == 0 {
+				// surrounding blanks are not part of a target (a YAML block scalar leaves a newline behind)
+				t = "  " + t + " \n"
+			}
+			fmt.Fprintf(sb, "%s    target: %s\n", ind, yq(t))
 		}
 	}
 }
@@ -124,8 +136,8 @@ func (t *tplSpec) yaml() string {
 		fmt.Fprintf(&sb, "  ports: %s\n", yq(t.Ports))
 	}
 	writeConstraints(&sb, "", t.Constraints)
-	writeChans(&sb, "", "bind", t.Bind)
-	writeChans(&sb, "", "connect", t.Connect)
+	writeChans(&sb, "", "bind", t.Bind, false)
+	writeChans(&sb, "", "connect", t.Connect, false)
 	writeKVs(&sb, "", "properties", t.Properties)
 	sb.WriteString("command:\n  shell: true\n  env:\n    - \"VERIF_ROLE={{ task_parent_role }}\"\n")
 	for _, e := range t.Env {
@@ -145,8 +157,8 @@ func (r *roleSpec) writeBody(sb *strings.Builder, ind string, files map[string]s
 	writeConstraints(sb, ind, r.Constraints)
 	writeKVs(sb, ind, "defaults", r.Defaults)
 	writeKVs(sb, ind, "vars", r.Vars)
-	writeChans(sb, ind, "bind", r.Bind)
-	writeChans(sb, ind, "connect", r.Connect)
+	writeChans(sb, ind, "bind", r.Bind, true)
+	writeChans(sb, ind, "connect", r.Connect, true)
 	if r.Task != nil {
 		fmt.Fprintf(sb, "%stask:\n%s  load: %s\n%s  critical: %v\n", ind, ind, r.Task.Name, ind, r.Critical)
 		files["tasks/"+r.Task.Name+".yaml"] = r.Task.yaml()
